@@ -825,6 +825,7 @@ struct Emitter {
         body << "  { " << st << " x = (" << st << ")" << V(CB.getArgOperand(0)) << ", y = (" << st << ")" << V(CB.getArgOperand(1)) << "; "
              << L << ".f1 = " << ovf << "(x, y); " << L << ".f0 = (" << cty(CB.getArgOperand(0)->getType()) << ")((u" << st << ")x " << opc << " (u" << st << ")y); }\n";
       }
+      else if (n.startswith("llvm.is.constant")) body << "  " << assign << "0;\n";      /* never a compile-time constant at -O0 */
       else if (n.startswith("llvm.va_start") || n.startswith("llvm.va_end")) { body << "  __CPROVER_assert(0, \"model bound: va_list in translated code\");\n"; }
       else die("intrinsic " + n.str());
     }
